@@ -188,6 +188,9 @@ class BaseComponent(Manager):
             self.parent = self
 
         self._updateRoot(self)
+        # This component dispatches as a root again: the handler cache it
+        # filled before it became a child knows nothing of later changes.
+        self._cache_needs_refresh = True
         return self
 
     def _updateRoot(self, root):
